@@ -199,7 +199,7 @@ class C04(PropBase):
         return None
 
     def comparable(self, sess, i, step):
-        return True
+        return True  # every C04 conversion has one right answer in every environment
 
     def check(self, sess, i, step, out):
         op = step["op"]
